@@ -16,11 +16,11 @@ PropIds == {"C01","C02","C03","C04","C05","C06","C07","C08","C09","C10",
 NoObs == [kind |-> "none", line |-> 0]
 
 EmptyLedger(scn) ==
-  [ scn |-> scn, grp |-> "", spv |-> 0, swr |-> 5000, t |-> 0,
+  [ scn |-> scn, grp |-> "", spv |-> 0, gk |-> "", swr |-> 5000, t |-> 0,
     open |-> <<>>, calls |-> <<>>, sent |-> <<>>, tk |-> <<>>, eff |-> <<>>,
     kv |-> <<>>, ever |-> {}, inval |-> {}, namedxo |-> {}, replacedFor |-> {},
     faulted |-> FALSE, hardfault |-> {}, pairs |-> {}, varies |-> {}, nreq |-> 0,
-    obsq |-> <<>>, canon |-> <<>>, canongrp |-> "", swrx |-> {}, served |-> <<>>, fuzzy |-> {}, vu |-> {},
+    obsq |-> <<>>, canon |-> <<>>, canongrp |-> "", swrx |-> {}, served |-> <<>>, fuzzy |-> {}, vu |-> {}, conc |-> FALSE, hadconc |-> FALSE,
     last |-> NoObs ]
 
 (***************************************************************************)
@@ -87,7 +87,7 @@ BgLate(L, c, rq) == c.ctxdone = 1 \/ (c.t1 - c.t0) * 1000 >= L.swr \/ rq.cancel 
 (***************************************************************************)
 OnReset(L, e, line) ==
   [ EmptyLedger(e.scn) EXCEPT
-      !.grp = e.grp, !.spv = e.spv, !.swr = e.swr, !.t = e.t,
+      !.grp = e.grp, !.spv = e.spv, !.gk = e.gk, !.swr = e.swr, !.t = e.t,
       !.canon = IF e.grp # "" /\ e.grp = L.grp /\ L.spv = 0 THEN L.obsq
                 ELSE IF e.grp # "" /\ e.grp = L.canongrp THEN L.canon ELSE <<>>,
       !.canongrp = IF e.grp # "" /\ e.grp = L.grp /\ L.spv = 0 THEN e.grp
@@ -99,7 +99,7 @@ OnQuiet(L, e, line) == [L EXCEPT !.t = e.t, !.last = [kind |-> "quiet", line |->
 \* stored responses the request could be answered with, judged when the exchange begins
 Candidates(L, rq, x) ==
   { T \in StoredToks(L) \cap DOMAIN L.tk :
-      /\ L.tk[T].rq.u = rq.u /\ L.tk[T].x < x
+      /\ L.tk[T].rq.u = rq.u /\ L.tk[T].x # x
       /\ T \notin L.inval /\ T \notin L.fuzzy
       \* a response that a newer stored one has superseded for some request is no longer
       \* owed to anybody (whether it may still be served to other requests is left open)
@@ -109,7 +109,7 @@ Candidates(L, rq, x) ==
 OnBegin(L, e, line) ==
   [ L EXCEPT !.t = e.t,
       !.open = L.open @@ (e.x :> [rq |-> e.rq, t0 |-> e.t, nfault |-> e.nfault, hard |-> e.hard, line |-> line, seq |-> L.nreq + 1,
-                                  cands |-> IF L.faulted \/ e.nfault > 0 THEN {} ELSE Candidates(L, e.rq, e.x)]),
+                                  cands |-> IF L.faulted \/ e.nfault > 0 \/ L.hadconc THEN {} ELSE Candidates(L, e.rq, e.x)]),
       !.pairs = L.pairs \cup {<<e.rq.u, e.rq.sel>>},
       !.nreq = L.nreq + 1,
       !.faulted = L.faulted \/ e.nfault > 0,
@@ -169,7 +169,7 @@ OnRet(L, e, line) ==
       rq   == o.rq
       fg   == FgCalls(L, e.x)
       resp == e.err = 0 /\ e.panic = 0 /\ e.neither = 0
-      fromStore == resp /\ e.tok # "" /\ e.tok \in DOMAIN L.tk /\ L.tk[e.tok].x < e.x
+      fromStore == resp /\ e.tok # "" /\ e.tok \in DOMAIN L.tk /\ L.tk[e.tok].x # e.x
       ownTok    == resp /\ e.tok # "" /\ e.tok \in DOMAIN L.tk /\ L.tk[e.tok].x = e.x
       ownTag    == resp /\ e.tag # "" /\ \E i \in 1..Len(fg) : fg[i].tag = e.tag
       contacted == Len(fg) > 0
@@ -216,6 +216,9 @@ OnRet(L, e, line) ==
                     val304 |-> val304, rep |-> rep, ages |-> ages, cands |-> cands, unsafeOK |-> unsafeOK,
                     effBefore |-> L.eff, invalBefore |-> L.inval, newInval |-> inval2 \ L.inval ] ]
 
+\* requests issued concurrently: obligations that depend on the order of store operations are off
+OnConc(L, e, line) == [L EXCEPT !.t = e.t, !.conc = (e.ev = "conc"), !.hadconc = TRUE, !.last = [kind |-> "quiet", line |-> line]]
+OnRace(L, e, line) == [L EXCEPT !.last = [kind |-> "race", line |-> line, e |-> e]]
 OnMut(L, e, line) == [L EXCEPT !.t = e.t, !.last = [kind |-> "mut", line |-> line, e |-> e]]
 OnEnd(L, e, line) == [L EXCEPT !.t = e.t, !.last = [kind |-> "end", line |-> line, e |-> e]]
 OnCrash(L, e, line) == [L EXCEPT !.last = [kind |-> "crash", line |-> line, e |-> e]]
@@ -227,6 +230,8 @@ IsRet(L)  == L.last.kind = "ret"
 IsOp(L)   == L.last.kind = "op"
 IsCall(L) == L.last.kind = "call"
 IsEnd(L)  == L.last.kind = "end"
+\* the end of a non-canonical member of a scenario group whose canonical run was recorded
+AGrp(L) == IsEnd(L) /\ L.spv > 0 /\ L.grp # "" /\ L.canongrp = L.grp
 
 \* --- C01 ---------------------------------------------------------------
 A01(L) == IsRet(L) /\ L.last.fromStore /\ ~L.last.contacted
@@ -251,7 +256,7 @@ M02(L) ==
        /\ (~R.contacted => \E a \in R.ages : ~RequestMaxAgeExceeded(R.rep, a, R.rq))
        /\ (R.rep.ccp = 1 /\ Has(R.rep, "no-cache") /\ R.rep.ncf = 1 => R.e.h.secret = 0)
   /\ (IsRet(L) => L.last.e.requnch = 1)
-  /\ (IsRet(L) /\ L.last.fromStore /\ L.last.val304 => ValidatorsOK(L))
+  /\ (IsRet(L) /\ L.last.fromStore /\ L.last.val304 /\ ~L.hadconc => ValidatorsOK(L))
   /\ (IsCall(L) =>
         LET c == L.last.c  rq == L.last.rq IN
         /\ c.m = rq.m /\ c.rng = rq.range /\ c.hsame = 1
@@ -296,7 +301,7 @@ M06(L) ==
   /\ (IsRet(L) /\ L.last.resp /\ L.last.rq.inm = 0 /\ L.last.rq.ims = 0 => L.last.e.st # 304)
 
 \* --- C07 ---------------------------------------------------------------
-A07(L) == IsRet(L) /\ L.last.fromStore /\ L.last.e.tok \in L.last.invalBefore
+A07(L) == IsRet(L) /\ L.last.fromStore /\ L.last.e.tok \in L.last.invalBefore /\ ~L.faulted
 M07(L) == A07(L) => L.last.val304
 
 \* --- C09 / C08 must-reuse ----------------------------------------------
@@ -309,7 +314,7 @@ M09(L) == A09(L) => Reused(L)
 
 A08(L) == IsRet(L) /\ L.last.fromStore
 M08(L) ==
-  /\ (A08(L) /\ ~L.last.val304 =>
+  /\ (A08(L) /\ ~L.last.val304 /\ ~L.faulted =>
         ~(\E p \in L.replacedFor : p[1] = L.last.e.tok /\ p[2] = L.last.rq.sel /\ p[3] < L.last.o.seq))
   \* a freshened response that must be reused carries the 304's fields
   /\ (A09(L) /\ Reused(L) =>
@@ -330,6 +335,8 @@ M10(L) ==
         /\ (R.o.hard = 1 /\ R.resp /\ R.rq.m = "GET" /\ ~Has(R.rq, "only-if-cached") =>
               (R.ownTok \/ R.ownTag \/ R.fromStore) /\ (R.ownTok => R.e.bodyok = 1)))
   /\ L.last.kind # "crash"
+  \* behaviour is the same with logging enabled (the discard-logger run of the real code is the oracle)
+  /\ (AGrp(L) /\ L.gk = "log" => L.obsq = L.canon)
 
 \* --- C11 ---------------------------------------------------------------
 CacheLabels == {"HIT", "STALE", "REVALIDATED"}
@@ -355,7 +362,7 @@ M11(L) == A11(L) =>
   /\ (e.fc # "1" => e.fc = "")
 
 \* --- C12 ---------------------------------------------------------------
-A12(L) == IsEnd(L) /\ L.spv > 0 /\ L.grp # "" /\ L.canongrp = L.grp
+A12(L) == AGrp(L) /\ L.gk # "log"
 M12(L) == A12(L) => L.obsq = L.canon
 
 \* --- C13 ---------------------------------------------------------------
@@ -376,8 +383,14 @@ M13(L) ==
         /\ R.fromStore /\ R.e.tok \in R.cands /\ R.e.label = "STALE" /\ AgeOK(L))
 
 \* --- C16 ---------------------------------------------------------------
-A16(L) == IsEnd(L) \/ L.last.kind = "mut"
-M16(L) == (L.last.kind = "mut" => L.last.e.resp = 0 /\ L.last.e.req = 0) /\ L.last.kind # "race"
+A16(L) == (IsRet(L) /\ L.conc) \/ L.last.kind \in {"mut", "race"} \/ (IsEnd(L) /\ L.swrx # {})
+M16(L) ==
+  /\ (L.last.kind = "mut" => L.last.e.resp = 0 /\ L.last.e.req = 0)
+  /\ L.last.kind # "race"
+  \* a reply produced while other requests run is still an intact copy of one origin response
+  /\ (IsRet(L) /\ L.hadconc /\ (L.last.fromStore \/ L.last.ownTok) =>
+        (L.tk[L.last.e.tok].incomplete \/ (L.last.e.bodyok = 1 /\ L.last.e.bodyerr = 0)) /\ L.last.e.stsame = 1)
+  /\ (IsRet(L) => L.last.e.requnch = 1)
 
 \* --- C18 ---------------------------------------------------------------
 A18(L) == (IsRet(L) /\ Has(L.last.rq, "only-if-cached")) \/ (IsCall(L) /\ Has(L.last.rq, "only-if-cached"))
@@ -421,13 +434,16 @@ Mons(L) ==
     <<"C10", M10(L)>>, <<"C11", M11(L)>>, <<"C12", M12(L)>>, <<"C13", M13(L)>>, <<"C16", M16(L)>>,
     <<"C18", M18(L)>>, <<"C19", M19(L)>>, <<"C20", M20(L)>> }
 
-Violated(L) == IF L.last.kind \in {"none", "quiet", "reset"} THEN {} ELSE { p[1] : p \in { q \in Mons(L) : ~q[2] } }
+\* monitors that do not depend on the order in which concurrent exchanges touched the store
+ConcSafe == {"C01", "C02", "C03", "C04", "C10", "C11", "C16", "C18"}
+Violated(L) == IF L.last.kind \in {"none", "quiet", "reset"} THEN {}
+               ELSE { p[1] : p \in { q \in Mons(L) : ~q[2] /\ (~L.hadconc \/ q[1] \in ConcSafe) } }
 
 Ante(L) ==
   { <<"C01", A01(L)>>, <<"C02", A02(L)>>, <<"C03", A03(L)>>, <<"C04", A04(L) /\ (L.last.rep.vs = 1 \/ Len(L.last.rep.vary) > 0)>>,
     <<"C05", A05(L)>>, <<"C06", A06(L)>>, <<"C07", (IsRet(L) /\ L.last.unsafeOK) \/ A07(L)>>,
     <<"C08", A08(L) /\ (L.last.val304 \/ L.last.effBefore[L.last.e.tok].n304 > 0)>>, <<"C09", A09(L)>>,
-    <<"C10", A10(L) /\ (L.last.o.nfault > 0 \/ L.last.e.err = 1 \/ (Len(L.last.fg) > 0 /\ SieFail(L.last.fg[Len(L.last.fg)])))>>,
+    <<"C10", (AGrp(L) /\ L.gk = "log") \/ (A10(L) /\ (L.last.o.nfault > 0 \/ L.last.e.err = 1 \/ (Len(L.last.fg) > 0 /\ SieFail(L.last.fg[Len(L.last.fg)]))))>>,
     <<"C11", A11(L)>>, <<"C12", A12(L)>>, <<"C13", A13s(L) \/ A13m(L) \/ (IsRet(L) /\ Len(L.last.fg) > 0 /\ SieFail(L.last.fg[Len(L.last.fg)]) /\ L.last.cands # {})>>,
     <<"C16", A16(L)>>, <<"C18", A18(L)>>, <<"C19", A19(L)>>, <<"C20", A20(L)>> }
 
